@@ -728,11 +728,15 @@ func (f *factorizer) outlineAugment() {
 	var tgts []tgt
 	var rec func(n *yn, path []string)
 	rec = func(n *yn, path []string) {
-		if n.kw == "grouping" || n.kw == "uses" || n.kw == "augment" || isOp(n.kw) {
+		if n.kw == "grouping" || n.kw == "uses" || n.kw == "augment" {
 			return
 		}
-		p := append(append([]string{}, path...), n.arg)
-		if n.kw == "container" || n.kw == "list" || n.kw == "case" {
+		step := n.arg
+		if n.kw == "input" || n.kw == "output" {
+			step = n.kw
+		}
+		p := append(append([]string{}, path...), step)
+		if n.kw == "container" || n.kw == "list" || n.kw == "case" || n.kw == "input" || n.kw == "output" || n.kw == "notification" {
 			tgts = append(tgts, tgt{n, p})
 		}
 		for _, k := range n.kids {
@@ -778,6 +782,9 @@ func (f *factorizer) outlineAugment() {
 				return
 			}
 		}
+	}
+	if t.node.kw == "input" || t.node.kw == "output" || t.node.kw == "notification" {
+		f.step("augment-into-operation")
 	}
 	t.node.kids = t.node.kids[:cut]
 	// config: an augmented node inherits from the target exactly like an inline child; stated config stays
